@@ -528,6 +528,7 @@ theorem C11_dotfile (o : GlobOpts) (hdot : o.literalLeadingDot = true) :
     cases t with
     | lit c => simp only [dotOpen] at h; simp [matchToks, h]
     | any => simp [matchToks, hdot]
+    | within neg cs => simp [matchToks, hdot]
     | star =>
       simp only [dotOpen] at h
       simp [matchToks, starLoop, hdot, ih rest h]
@@ -537,12 +538,34 @@ theorem C11_dotfile_in_path (o : GlobOpts) (hdot : o.literalLeadingDot = true) (
     (sep : Bool) (h : dotOpen o ts = false) : matchToks o (.lit '/' :: ts) ('/' :: '.' :: rest) sep = false := by
   simp [matchToks, C11_dotfile o hdot ts rest h]
 
-/-- with `require_literal_separator`, `*` and `?` never match a `/`: wildcards stay inside one path component. -/
+/-- with `require_literal_separator`, `*`, `?` and character classes (also negated ones, also `[/]`) never match a `/`: wildcards
+stay inside one path component. -/
 theorem C11_wildcard_no_separator (o : GlobOpts) (hsep : o.literalSeparator = true) (ts : List Tok) (rest : List Char)
     (sep : Bool) :
     matchToks o (.any :: ts) ('/' :: rest) sep = false ∧
-    matchToks o (.star :: ts) ('/' :: rest) sep = matchToks o ts ('/' :: rest) sep := by
+    matchToks o (.star :: ts) ('/' :: rest) sep = matchToks o ts ('/' :: rest) sep ∧
+    ∀ neg cs, matchToks o (.within neg cs :: ts) ('/' :: rest) sep = false := by
   simp [matchToks, starLoop, hsep]
+
+/-- a character class matches exactly one character, the one its specifiers describe (`[!..]`: do not describe), and never a
+leading dot or a separator -/
+theorem C11_class_matches (o : GlobOpts) (neg : Bool) (cs : List CharSpec) (ts : List Tok) (x : Char) (xs : List Char) (sep : Bool) :
+    matchToks o (.within neg cs :: ts) (x :: xs) sep =
+      (!((o.literalSeparator && x == '/') || (sep && o.literalLeadingDot && x == '.')) && (inSpecs o x cs != neg) &&
+        matchToks o ts xs (x == '/')) ∧
+    matchToks o (.within neg cs :: ts) [] sep = false := by
+  simp [matchToks]
+
+/-- `Pattern::new` on classes: `[a-c]` is one range, `[a-]` two single characters, `[]]` the class of `]`, `[!]]` its complement;
+`[`, `[]`, `[!]`, `[a` are invalid patterns -/
+example : tokenize "p[a-c].x".toList = .ok [.lit 'p', .within false [.range 'a' 'c'], .lit '.', .lit 'x'] ∧
+    tokenize "[a-]".toList = .ok [.within false [.single 'a', .single '-']] ∧
+    tokenize "[]]".toList = .ok [.within false [.single ']']] ∧
+    tokenize "[!]]".toList = .ok [.within true [.single ']']] ∧
+    tokenize "[a-c-e]".toList = .ok [.within false [.range 'a' 'c', .single '-', .single 'e']] ∧
+    tokenize "[".toList = .invalid ∧ tokenize "[]".toList = .invalid ∧ tokenize "[!]".toList = .invalid ∧
+    tokenize "x[a".toList = .invalid := by
+  decide
 
 /-! ## termination: every load ends in `ok` or `err` (cycles in `err RecursiveInclude`) — reused by C06 -/
 
